@@ -14,6 +14,13 @@ CHECKS = {
             "generator and read back with ast. Exhaustive within the bound; right level because the counterexamples are short, specific strings.",
             "Trusts CPython's str.isidentifier/keyword tables and ast/compile as the judge of identifiers; strings outside the alphabet/length bound are not covered.",
             "4 C20"),
+    "C18": ("model_checking", "exhaustive chunk-schedule enumeration of the real stream decoders (all 2^(n-1) chunkings of short streams, all <=S-split chunkings of longer ones, empty-chunk deviations), differential + reference oracle",
+            "Every way of splitting the byte encoding of every <=3-record stream into chunks (all subsets of split points for short streams; all subsets with <=2/3 "
+            "points for longer ones; empty chunks as deviation) is delivered to the real iter_sse / iter_sse_events_text / iter_ndjson / iter_bytes through a real "
+            "httpx.Response; the items must equal those of the unsplit stream, which must equal a boring reference parser. Chunk-boundary behaviour is a schedule "
+            "property, so exhaustive schedule enumeration is the matching level.",
+            "httpx's LineDecoder/TextDecoder are part of the subject as shipped in /venv; streams longer than 3 records and >3 simultaneous split points are outside the bound.",
+            "4 C18"),
 }
 
 NOT_YET = {}
